@@ -24,8 +24,20 @@ import (
 	"github.com/bfenetworks/bfe/bfe_module"
 )
 
+// VerifC28Part is one burst of client bytes.  The client sends a part only when the server asks for
+// more input after having consumed everything sent before (so the client has seen every byte the
+// server wrote up to then).  A part with Need100 is sent only if the server wrote "100 Continue"
+// since the previous part was handed out; otherwise it is skipped (a client that waited for the
+// continue and got a final response instead does not send the body).
+type VerifC28Part struct {
+	Data    []byte
+	Need100 bool
+}
+
 type verifC28Conn struct {
 	in     *bytes.Reader
+	parts  []VerifC28Part // bursts not yet handed out
+	mark   int            // len(out) when the current burst was handed out
 	out    bytes.Buffer
 	closed bool
 }
@@ -33,6 +45,15 @@ type verifC28Conn struct {
 func (c *verifC28Conn) Read(p []byte) (int, error) {
 	if c.closed {
 		return 0, io.ErrClosedPipe
+	}
+	for c.in.Len() == 0 && len(c.parts) > 0 {
+		pt := c.parts[0]
+		c.parts = c.parts[1:]
+		if pt.Need100 && !bytes.Contains(c.out.Bytes()[c.mark:], []byte("HTTP/1.1 100 Continue\r\n\r\n")) {
+			continue
+		}
+		c.mark = c.out.Len()
+		c.in = bytes.NewReader(pt.Data)
 	}
 	return c.in.Read(p)
 }
@@ -70,6 +91,11 @@ type VerifC28Handler func(n int, start int, req *bfe_basic.Request) (int, *bfe_h
 // VerifC28Serve runs conn.serve over the byte stream `input`.  It returns the bytes written to the
 // client and the number of input bytes the connection's buffered reader handed out.
 func VerifC28Serve(input []byte, keepAlive bool, maxHeaderBytes, maxUriBytes int, h VerifC28Handler) (out []byte, consumed int) {
+	return VerifC28ServeParts([]VerifC28Part{{Data: input}}, keepAlive, maxHeaderBytes, maxUriBytes, h)
+}
+
+// VerifC28ServeParts is VerifC28Serve for a client that sends its bytes in bursts (see VerifC28Part).
+func VerifC28ServeParts(parts []VerifC28Part, keepAlive bool, maxHeaderBytes, maxUriBytes int, h VerifC28Handler) (out []byte, consumed int) {
 	verifC28Once.Do(func() { verifC28Status = NewServerStatus() })
 	srv := new(BfeServer)
 	srv.serverStatus = verifC28Status
@@ -80,7 +106,7 @@ func VerifC28Serve(input []byte, keepAlive bool, maxHeaderBytes, maxUriBytes int
 	srv.MaxHeaderUriBytes = maxUriBytes
 	srv.SetKeepAlivesEnabled(keepAlive)
 
-	fc := &verifC28Conn{in: bytes.NewReader(input)}
+	fc := &verifC28Conn{in: bytes.NewReader(nil), parts: parts}
 	c, _ := newConn(fc, srv)
 	rd := c.buf.Reader
 	base := rd.TotalRead
